@@ -402,6 +402,33 @@ def rule_recency_ops(ctx) -> None:
     ctx.holds("C15.EVICT", "containers/recency-ops", "clematis/engine", f"{n_ops} operations on deque / OrderedDict recency structures keep the LRU(left) -> MRU(right) order")
 
 
+def rule_zero_config(ctx) -> None:
+    """capacity / TTL arguments of the cache constructors are Optional: 0 is a setting (disabled cache, no expiry), None means
+    'not given'.  Alias resolution must tell them apart with `is None`, in the constructor and in any helper it hands them to."""
+    from ..zero import ZeroIsValue
+    n_opt = 0
+    for mn in (CACHE, "clematis.engine.util.lru_bytes", "clematis.engine.util.lru_det", "clematis.engine.util.ring"):
+        m = ctx.prog.module(mn)
+        for fn in m.funcs.values():
+            if fn.name != "__init__":
+                continue
+            a = fn.node.args
+            allp = a.posonlyargs + a.args + a.kwonlyargs
+            defaults = [None] * (len(a.posonlyargs + a.args) - len(a.defaults)) + list(a.defaults) + list(a.kw_defaults)
+            opt = {p.arg for p, d in zip(allp, defaults) if isinstance(d, ast.Constant) and d.value is None and p.arg not in ("on_evict", "time_fn")
+                   and (p.annotation is None or "int" in src(p.annotation) or "float" in src(p.annotation))}
+            if not opt:
+                continue
+            n_opt += len(opt)
+            z = ZeroIsValue(ctx, fn, lambda e: False, opt_params=opt)
+            bad = list(z.conflations()) + list(z.callee_conflations())
+            ctx.check(not bad, "C15.ACCT", f"{fn.qual}/zero-config-is-a-value", fn.loc(bad[0][0]) if bad else fn.loc(),
+                      f"optional size / TTL arguments {sorted(opt)} are told apart from 'not given' by `is None` only",
+                      (f"an optional size / TTL argument is tested by {bad[0][2]} (`{bad[0][1][:60]}`): an explicit 0 (disabled cache / never expire) is treated as 'not given', "
+                       "so the cache falls back to the default capacity or TTL and holds / expires entries against its configuration") if bad else "")
+    ctx.floor("C15.ACCT", "optional numeric constructor arguments of the caches", n_opt, 3)
+
+
 # ------------------------------------------------------------------- ACCT
 def rule_acct(ctx) -> None:
     cq = "clematis.engine.util.lru_bytes:LRUBytes"
@@ -551,4 +578,5 @@ def run(ctx) -> None:
     rule_evict(ctx)
     rule_recency_ops(ctx)
     rule_acct(ctx)
+    rule_zero_config(ctx)
     rule_merge(ctx)
